@@ -119,6 +119,14 @@ impl<'en> Encode<'en> for ByteArray {
                         )
                     })?;
 
+                // A value that holds the stop byte cannot be read back.
+                if value.contains(stop_byte) {
+                    return Err(io::Error::new(
+                        io::ErrorKind::InvalidInput,
+                        "byte array contains the stop byte",
+                    ));
+                }
+
                 dst.extend(value);
                 dst.push(*stop_byte);
 
@@ -231,6 +239,19 @@ mod tests {
             &[],
             &[b'n', b'd', b'l', b's', 0x00],
         )?;
+
+        assert!(matches!(
+            t(
+                &Encoding::new(ByteArray::ByteArrayStop {
+                    stop_byte: 0x00,
+                    block_content_id: 1,
+                }),
+                b"nd\0ls",
+                &[],
+                &[],
+            ),
+            Err(e) if e.kind() == io::ErrorKind::InvalidInput
+        ));
 
         Ok(())
     }
